@@ -83,6 +83,7 @@ func cmdFunc(args []string) int {
 	dump := fs.String("dump", "", "directory to keep SMT files")
 	timeout := fs.Int("t", 10, "solver timeout (s)")
 	verbose := fs.Bool("v", false, "print notes")
+	sweep := fs.Bool("sweep", false, "verify the matching functions under the lock-discipline sweep contract instead")
 	fs.Parse(args)
 	pat := fs.Arg(0)
 	e, err := loadEngine(targetDirs)
@@ -105,13 +106,25 @@ func cmdFunc(args []string) int {
 	var jobs []job
 	for _, k := range sortedKeys(e.contracts.funcs) {
 		fc := e.contracts.funcs[k]
-		if !strings.Contains(k, pat) || fc.assumed {
+		if *sweep || !strings.Contains(k, pat) || fc.assumed {
 			continue
 		}
 		jobs = append(jobs, job{k, func() *vc { return e.verify(fc, nil) }})
 	}
+	if *sweep {
+		for _, fn := range e.sweepTargets() {
+			sfc := e.sweepContract(fn)
+			if sfc == nil || !strings.Contains(sfc.pkgPath+"."+sfc.name, pat) {
+				continue
+			}
+			jobs = append(jobs, job{"sweep " + sfc.pkgPath + "." + sfc.name, func() *vc { return e.verify(sfc, nil) }})
+		}
+	}
 	for _, l := range e.contracts.lemmas {
 		l := l
+		if *sweep {
+			break
+		}
 		if strings.Contains("lemma."+l.name, pat) {
 			jobs = append(jobs, job{"lemma." + l.name, func() *vc { return e.verifyLemma(l) }})
 		}
@@ -280,6 +293,43 @@ func cmdCheck(args []string) int {
 			owner[ob] = v
 		}
 		evFuncs = append(evFuncs, evFunc{Name: "lemma " + l.name, Verified: true, Arith: map[bool]string{true: "bv", false: "int"}[l.bv], Obligations: len(v.obls)})
+	}
+	if prop == "C19" {
+		// lock-discipline sweep: every function of the packages with `guarded` declarations that touches one
+		for _, fn := range e.sweepTargets() {
+			sfc := e.sweepContract(fn)
+			if sfc == nil {
+				continue
+			}
+			targets++
+			v := e.verify(sfc, nil)
+			vcs = append(vcs, v)
+			ef := evFunc{Name: "sweep " + shortPkg(sfc.pkgPath+"."+sfc.name), Verified: true, Arith: "int"}
+			if v.unresolved {
+				unresolved++
+				ef.Unresolved, ef.Verified = true, false
+				evFuncs = append(evFuncs, ef)
+				continue
+			}
+			for _, b := range v.fn.Blocks {
+				ef.SSAInstrs += len(b.Instrs)
+			}
+			for _, er := range v.errs {
+				genErrs = append(genErrs, v.fnName+": "+er)
+			}
+			n := 0
+			for _, ob := range v.obls {
+				if ob.kind != "guard" {
+					continue // the sweep contract claims nothing else (covers of its paths are not vacuity guards of a claim)
+				}
+				obs = append(obs, ob)
+				owner[ob] = v
+				n++
+			}
+			ef.Obligations = n
+			ef.Notes = v.imprecise
+			evFuncs = append(evFuncs, ef)
+		}
 	}
 	genS := time.Since(t0).Seconds() - loadS
 	ts := time.Now()
